@@ -12,7 +12,9 @@ ASSUMPTIONS = [
     "host packets are well formed with good CRCs (corrupted SETUP data is C06's subject); SETUP only to endpoint 0 "
     "with DATA0 and 8 bytes; no PING to endpoint 0 (full speed)",
     "only the valid forms of the implemented standard requests, absent descriptors, and must-STALL requests are "
-    "sent; descriptor lengths are not multiples of 64 (the ZLP corner is C09's subject)",
+    "sent; descriptor lengths are not multiples of 64 (the ZLP corner is C09's subject); the must-STALL class includes "
+    "host-to-device requests with a 1..130-byte data stage (SET_DESCRIPTOR, unclaimed class/vendor writes): their OUT "
+    "data may be ignored/NAKed/STALLed (never ACKed) and the status IN must STALL",
     "the host starts every transaction only after the previous one has finished or timed out (18 bit times)",
     "illegal-but-named host behaviour generated: transfers abandoned after any stage, repeated SETUPs, lost "
     "host ACKs followed by a retry, data stages ended early by the status stage",
@@ -36,12 +38,44 @@ def ctrl_items(cut_weights=((0, 6), (1, 2), (2, 3), (3, 1), (4, 1)), foreign=Non
     ))
 
 
+def write_requests():
+    """Host-to-device requests WITH a data stage (wLength > 0). None is implemented by the device (SET_DESCRIPTOR is
+    optional, the class/vendor ones are unclaimed), so the model only requires 'no data/ACK, STALL at the status IN';
+    what matters here is that they put endpoint 0 into its OUT data stage."""
+    wl = st.one_of(st.sampled_from([1, 6, 8, 18, 64, 65, 130]), st.integers(1, 130))
+    return st.one_of(
+        st.builds(lambda v, l: [0x00, 7, v, 0, l], st.sampled_from([0x0100, 0x0200, 0x0301]), wl),   # SET_DESCRIPTOR
+        st.builds(lambda bm, r, v, l: [bm, r, v, 0, l], st.sampled_from([0x40, 0x41, 0x21, 0x22, 0x42]),
+                  st.sampled_from([0x20, 9, 1, 0xFF]), st.sampled_from([0, 7, 0x1234]), wl))
+
+
+def read_requests():
+    gd = lambda t, i, l: [0x80, 6, (t << 8) | i, 0, l]
+    return st.sampled_from([gd(1, 0, 18), gd(1, 0, 8), gd(2, 0, 9), gd(2, 0, 255), gd(3, 2, 255), gd(3, 0, 255),
+                            [0x80, 8, 0, 0, 1], [0x80, 0, 0, 0, 2], [0x82, 0, 0, 0x81, 2]])
+
+
+def abandoned_write_then_read(foreign=None):
+    """A control write with a data stage abandoned after its SETUP / after 1..2 OUT data packets (cut 1..3 of
+    setup, out[, out], status-in), with optional other-endpoint traffic inside, directly followed by a control read
+    (complete, or itself abandoned late) -- 'every new SETUP starts a fresh transfer'."""
+    foreign = foreign if foreign is not None else G.foreign_items()
+    mid = long_lists(st.tuples(st.integers(0, 3), foreign).map(list), max_size=3, average=0.7)
+    wr = st.fixed_dictionaries(dict(k=st.just("ctrl"), req=write_requests(), cut=weighted([(1, 3), (2, 3), (3, 1)]),
+                                    noack=st.just(0), early=weighted([(None, 3), (1, 1)]), again=st.just(0), mid=mid))
+    rd = st.fixed_dictionaries(dict(k=st.just("ctrl"), req=read_requests(), cut=weighted([(0, 5), (2, 1), (3, 1)]),
+                                    noack=weighted([(0, 6), (1, 1)]), early=st.just(None), again=st.just(0), mid=mid))
+    return st.tuples(wr, rd).map(list)
+
+
 class ControlStages(Sub):
     name = "stages"
     budget = {"quick": 1500, "thorough": 30000}
     shrink_budget = 250
     rule = ("host programs of 1..10 control transfers (all implemented standard requests in valid form, absent "
-            "descriptors, must-STALL requests), each complete or abandoned after any transaction, with lost host "
+            "descriptors, must-STALL requests; plus control writes with a 1..130-byte data stage -- SET_DESCRIPTOR, "
+            "class/vendor OUT -- abandoned after SETUP or after 1..2 OUT data packets and directly followed by a control "
+            "read), each complete or abandoned after any transaction, with lost host "
             "ACKs + retries, early status stages, and IN/OUT/PING/SOF traffic to endpoints 1-4 between any two "
             "stages, under generated packet timing and tx_ready patterns; every device response is compared with "
             "an independent host-visible device model (stage, direction, PID, payload); non-trivial = a "
@@ -52,8 +86,12 @@ class ControlStages(Sub):
         self.rig = H.rig("full")
 
     def strategy(self):
-        top = st.one_of(ctrl_items(), ctrl_items(), ctrl_items(), G.foreign_items())
-        return st.fixed_dictionaries(dict(items=long_lists(top, min_size=1, max_size=10, average=6), **G.env_fields()))
+        one = lambda s: s.map(lambda x: [x])
+        top = st.one_of(one(ctrl_items()), one(ctrl_items()), one(ctrl_items()), one(G.foreign_items()),
+                        abandoned_write_then_read())
+        flat = lambda groups: [it for g in groups for it in g]
+        return st.fixed_dictionaries(dict(items=long_lists(top, min_size=1, max_size=10, average=5).map(flat),
+                                          **G.env_fields()))
 
     def build(self, case):
         b = G.Builder(self.rig.descriptors)
@@ -105,6 +143,8 @@ def verdict(run, b, extra_labels=()):
         if tr["abandoned"]:
             seen_abandoned = True
             labels.add("abandon-after-" + tr["stages"][-1])
+            if tr["req"][0] >> 7 == 0 and tr["req"][4] and "status" not in tr["stages"]:
+                labels.add("abandoned-write-with-data")
         else:
             if seen_abandoned:
                 abandoned_then_completed = True
